@@ -1,11 +1,13 @@
 (** Extraction of the C18 model (ExtrOcamlBasic only; N/Z/positive/nat stay inductive). *)
 Require Extraction.
 Require Import ExtrOcamlBasic.
-From Kardia Require Import C18.Model.
+From Kardia Require Import C18.Model C18.ModelFetcher.
 Extraction Language OCaml.
 Set Extraction KeepSingleton.
 From Kardia Require Import Base.Anchor.
 Extraction "../ocaml/C18/model.ml" Anchor.anchor
   Model.handle Model.prs0 Model.pick_vote Model.pick_vote_post Model.gossip_data Model.pickable
   Model.set_has_part Model.cc_of Model.digest Model.as_int Model.as_uint
-  Model.bc_receive Model.tx_receive Model.ev_receive Model.pex_receive Model.frames_run.
+  Model.bc_receive Model.tx_receive Model.ev_receive Model.pex_receive Model.frames_run
+  Model.hvs_new Model.hvs_add_vote Model.hvs_set_round Model.node_observe Model.node_vote Model.node_deliver
+  ModelFetcher.f0 ModelFetcher.fstep ModelFetcher.fetcher_ok ModelFetcher.w_known ModelFetcher.zs_add.
